@@ -95,10 +95,15 @@ class World(object):
             def fit(fl_rfi, fl_mef):
                 ch = int(fl_mef[0] // 10)
                 return curve(ch), curve(ch), np.array([1.0]), 'stub', ['p']
+            names_arg = [NAMES[ch - 1] for ch in self.mef_order]
             self.to_mef = FlowCal.mef.get_transform_fxn(
-                beads, mefv, [NAMES[ch - 1] for ch in self.mef_order],
+                beads, mefv, names_arg,
                 clustering_fxn=lambda data, n, **kw: np.arange(data.shape[0]) % n,
                 selection_fxn=None, fitting_fxn=fit)
+            # the caller goes on using its own lists (here: puts them in another order); the function it was handed is
+            # a calibration of its own
+            names_arg.reverse()
+            mefv.reverse()
 
             self.ref_bins = {}
             if not want_bins:
